@@ -107,6 +107,11 @@ def ObtainQuantity(
             try:
                 return quantities_cache[tuple(key)]
             except KeyError:
+                # The quantity owns its composing map: the [unit, exponent] pairs are always new
+                # lists (callers may hand in tuples or keep using their own dict).
+                unit = OrderedDict(
+                    (category, list(unit_and_exp)) for (category, unit_and_exp) in unit.items()
+                )
                 quantity = quantities_cache[tuple(key)] = Quantity(unit, None, unknown_unit_caption)
                 return quantity
 
